@@ -478,6 +478,7 @@ fn run_cmd(modules: &'static [&'static Module], args: &[String]) -> ! {
     let stop = AtomicBool::new(false);
     let mut total = Acc::default();
     let mut pairs_runs = 0u64;
+    let mut sweep_values = 0u64;
 
     // signature for de-duplication of reports: one report per (mode, gapless, kind, class, op letter)
     let sig_of = |m: &Module, v: &Violation| -> String {
@@ -510,9 +511,10 @@ fn run_cmd(modules: &'static [&'static Module], args: &[String]) -> ! {
     };
 
     // ---- phase 1 (C07, C02): every ordered pair of variants, on every module that has range
-    if pairs {
+    let tfsweep = arg(args, "--tfsweep").map(|s| s == "1").unwrap_or(pairs);
+    if pairs || tfsweep {
         for (mi, m) in el.iter().copied().enumerate() {
-            if m.new_range.is_none() {
+            if !pairs || m.new_range.is_none() {
                 continue;
             }
             let idxs: Vec<usize> = if m.n() <= 40 {
@@ -537,6 +539,48 @@ fn run_cmd(modules: &'static [&'static Module], args: &[String]) -> ! {
                             report(-(pairs_runs as i64), m, &h, v);
                         }
                     }
+                }
+            }
+        }
+        // ---- phase 1b (C02): every value of the repr for try_from / TryFrom, on the narrow reprs
+        // (8 bits always, 16 bits natively only: under Miri that would take hours)
+        if prop == Prop::C02 && tfsweep {
+            let wide16 = arg(args, "--sweep16").map(|s| s == "1").unwrap_or(true);
+            for (mi, m) in el.iter().copied().enumerate() {
+                if m.try_from.is_none() && m.try_from_trait.is_none() {
+                    continue;
+                }
+                let (lo, hi): (i128, i128) = match m.repr {
+                    "u8" => (0, 255),
+                    "i8" => (-128, 127),
+                    "u16" if wide16 => (0, 65535),
+                    "i16" if wide16 => (-32768, 32767),
+                    _ => continue,
+                };
+                // one history per 256 values keeps the bookkeeping cheap
+                let mut v = lo;
+                while v <= hi {
+                    let h: Vec<Event> = (v..=(v + 255).min(hi))
+                        .map(|x| Event {
+                            client: 0,
+                            op: Op::TryFrom(x),
+                            migrate: false,
+                        })
+                        .collect();
+                    pairs_runs += 1;
+                    if pairs_runs > pair_from && pairs_runs <= pair_to {
+                        set_cur(u64::MAX - 1, m.name, &h);
+                        if trace {
+                            eprintln!("PAIR {} [{}]", m.name, encode_history(&h));
+                        }
+                        let rr = run_history(m, &h, &opts);
+                        sweep_values += h.len() as u64;
+                        total.add_run(u64::MAX - pairs_runs, mi, m, &h, &rr.stats, rr.stats.obs_digest);
+                        if let Some(v) = rr.violation {
+                            report(-(pairs_runs as i64), m, &h, v);
+                        }
+                    }
+                    v += 256;
                 }
             }
         }
@@ -655,6 +699,7 @@ fn run_cmd(modules: &'static [&'static Module], args: &[String]) -> ! {
         ("runs_requested", J::Int(runs as i128)),
         ("stopped_early", J::Bool(stop.load(Ordering::SeqCst))),
         ("pairs_runs", J::Int(pairs_runs as i128)),
+        ("try_from_sweep_values", J::Int(sweep_values as i128)),
         ("ops", J::Int((total.ops) as i128)),
         ("pairs_ops", J::Int(pairs_ops as i128)),
         ("modules_in_corpus", J::Int(modules.len() as i128)),
